@@ -9,7 +9,7 @@ repo = Repo('/repo')
 out = {}
 for q in sorted(repo.funcs):
     try:
-        out[q] = statement_shape(repo.funcs[q])
+        out[q] = {'raw': statement_shape(repo.funcs[q]), 'pos': statement_shape(repo.funcs[q], positional=True)}
     except Exception as e:
         print('skip', q, e)
 p = os.path.join(os.path.dirname(os.path.abspath(__file__)), '..', 'pvs', 'refs', 'shapes.json')
